@@ -196,6 +196,37 @@ Definition trunc_u64 (x : float) : Z :=
 Definition frac_op_float (f unit : Z) (scale : float) : Z :=
   trunc_u64 (float_of_u64 f * (float_of_u64 unit / scale))%float.
 
+(* first half of one round of the [for s != ""] loop, up to "Consume unit":
+   integer part v, fraction f with its scale, the unit text u (non-empty) and
+   the rest; None = one of the "invalid duration" / "missing unit" returns *)
+Definition scan_component (s : bytes) : option (Z * Z * float * bytes * bytes) :=
+  match s with
+  | [] => None
+  | c :: _ =>
+      if negb (is_dd c) then None                          (* next character must be [0-9.] *)
+      else match leading_int s with
+      | None => None
+      | Some (v, s1) =>
+        let pre := negb (Nat.eqb (length s) (length s1)) in
+        let '(f, scale, post, s2) :=
+          match s1 with
+          | c1 :: t1 =>
+              if byte_eqb c1 x2e then
+                let '(f, scale, r) := leading_fraction t1 in
+                (f, scale, negb (Nat.eqb (length t1) (length r)), r)
+              else (0, 1%float, false, s1)
+          | [] => (0, 1%float, false, s1)
+          end in
+        if negb pre && negb post then None                 (* no digits *)
+        else
+          let (u, s3) := unit_span s2 in
+          match u with
+          | [] => None                                     (* missing unit *)
+          | _ :: _ => Some (v, f, scale, u, s3)
+          end
+      end
+  end.
+
 Inductive comp_res := CErr | CPanic | COk (v : Z) (rest : bytes).
 
 Section Parser.
@@ -209,41 +240,19 @@ Section Parser.
      the value of the component and the rest of the string.  Only called
      with s non-empty. *)
   Definition parse_component (s : bytes) : comp_res :=
-    match s with
-    | [] => CErr
-    | c :: _ =>
-        if negb (is_dd c) then CErr                        (* next character must be [0-9.] *)
-        else match leading_int s with
-        | None => CErr
-        | Some (v, s1) =>
-          let pre := negb (Nat.eqb (length s) (length s1)) in
-          let '(f, scale, post, s2) :=
-            match s1 with
-            | c1 :: t1 =>
-                if byte_eqb c1 x2e then
-                  let '(f, scale, r) := leading_fraction t1 in
-                  (f, scale, negb (Nat.eqb (length t1) (length r)), r)
-                else (0, 1%float, false, s1)
-            | [] => (0, 1%float, false, s1)
-            end in
-          if negb pre && negb post then CErr               (* no digits *)
-          else
-            let (u, s3) := unit_span s2 in
-            match u with
-            | [] => CErr                                   (* missing unit *)
-            | _ :: _ =>
-              match lookupB units u with
-              | None => CErr                               (* unknown unit *)
-              | Some unit =>
-                if unit =? 0 then CPanic                   (* 1<<63/unit: integer divide by zero *)
-                else if v >? two63 / unit then CErr
-                else
-                  let v1 := u64 (v * unit) in
-                  let v2 := if f >? 0 then u64 (v1 + fop f unit scale) else v1 in
-                  if (f >? 0) && (v2 >? two63) then CErr
-                  else COk v2 s3
-              end
-            end
+    match scan_component s with
+    | None => CErr
+    | Some (v, f, scale, u, s3) =>
+        match lookupB units u with
+        | None => CErr                                     (* unknown unit *)
+        | Some unit =>
+            if unit =? 0 then CPanic                       (* 1<<63/unit: integer divide by zero *)
+            else if v >? two63 / unit then CErr
+            else
+              let v1 := u64 (v * unit) in
+              let v2 := if f >? 0 then u64 (v1 + fop f unit scale) else v1 in
+              if (f >? 0) && (v2 >? two63) then CErr
+              else COk v2 s3
         end
     end.
 
